@@ -241,6 +241,7 @@ func init() {
 		c.rulesR4histsib()
 		c.rulesR4lastpass()
 		c.rulesR5histbreak()
+		c.rulesR5hist2()
 		c.rulesC17ord()
 		c.rulesR3misc("C17")
 		c.rulesR3misc("C14") // C14.net: a history bound to the mirror records what the tracers are told
